@@ -11,11 +11,14 @@ For a function that is three times differentiable on the stencil,
     |rounding| <= eps * (|f(x+h)| + |f(x-h)|) * c_eval / (2h),
 
 where ``c_eval`` bounds the relative rounding error of one evaluation of f (a few hundred
-floating-point operations of moderate condition; c_eval = 256 is used).  With float64, h1 = 1e-4 and
-h2 = 2.5e-5 the two differences agree to ``|D(h1)-D(h2)| <= (h1^2 - h2^2) M3/6 + rounding(h1) + rounding(h2)``
-for a smooth coordinate with ``M3 >= |f'''|``; a kink of f inside the wider stencil breaks this
-agreement by a first-order amount (|jump of slope| * position-dependent factor), which is how
-non-smooth coordinates are recognised instead of being silently skipped.
+floating-point operations of moderate condition; c_eval = 256 is used).  Two differences at steps
+h_l > h_{l+1} agree to ``|D(h_l)-D(h_{l+1})| <= (h_l^2 - h_{l+1}^2) M3/6 + rounding(h_l) + rounding(h_{l+1})``
+for a coordinate that is smooth on the wider stencil, with ``M3 >= |f'''|``, and their Richardson
+combination is O(h^4)-accurate.  A kink of f at distance c from x contaminates exactly the differences
+with h > |c| by a first-order amount; the checks therefore use a ladder of steps (ratio 4): a coordinate
+whose coarse pair is contaminated is decided on the first finer pair that is clean, counted as
+non-smooth at the coarse stencil and never silently skipped; only a kink closer than the finest step
+leaves the derivative undecided (then the value must lie between the one-sided slopes).
 """
 from __future__ import annotations
 
@@ -54,6 +57,19 @@ def central_differences(f, params, h):
                 out.append((fp - fm) / step)
                 fmax = max(fmax, abs(fp), abs(fm))
     return out, fmax
+
+
+def central_difference_one(f, p, i, h):
+    """Central difference w.r.t. the single coordinate ``p.view(-1)[i]``; returns (value, max |f|)."""
+    with torch.no_grad():
+        flat = p.view(-1)
+        x0 = flat[i].item()
+        flat[i] = x0 + h
+        fp = f()
+        flat[i] = x0 - h
+        fm = f()
+        flat[i] = x0
+    return (fp - fm) / ((x0 + h) - (x0 - h)), max(abs(fp), abs(fm))
 
 
 def rounding_bound(fmax, h):
